@@ -213,7 +213,10 @@ def run(ctx) -> Result:
     res.rule("K2", "argmin scan over all weak orderings of candidate scores", 1)
     res.rule("K3", "candidates scored against the caller's dataset and scheme; Consensus carries them", 1)
     res.rule("K4", "equivalence test reads both penalty vectors (shared with C19/G3)", 4)
-    res.rule("K5", "unified rankings = input buckets + one last bucket of exactly the missing elements", 4)
+    res.rule("K5", "unified rankings = input buckets + one last bucket of exactly the missing elements", 6)
+    res.rule("K7", "the completeness flag PickAPerm's refusal depends on is right for every number of rankings", 1)
+    from . import C16
+    C16.check_flags_many(res, proj, "K7")
     # K1
     for complete, equiv, want in ((True, True, "ok"), (True, False, "ok"), (False, True, "ok"), (False, False, "raise")):
         st, cap, log, ds, scheme = _world(proj, comp, [2.0, 1.0], complete, equiv, True)
@@ -283,6 +286,9 @@ def check_unified(res: Result, proj: Project, rule: str):
         ("incomplete", [[{"a"}, {"b", "c"}], [{"d"}], [{"a", "b", "c", "d"}], []]),
         ("complete", [[{"a"}, {"b"}], [{"b", "a"}]]),
         ("single-missing", [[{"c"}, {"a"}], [{"b"}]]),
+        # ties before the last bucket: positions run ahead of the number of buckets
+        ("tie-before-last-bucket", [[{"a", "b"}, {"c"}], [{"d"}, {"a"}]]),
+        ("big-first-bucket", [[{"a", "b", "c"}, {"d"}], [{"e"}], [{"a"}, {"b", "c", "d"}, {"e"}]]),
     ]
     for label, raws in cases:
         d = w.dataset(raws)
